@@ -403,6 +403,10 @@ class ProtocolContext:
             try:  # the wrapped function (actual Tx.write)
                 await self._send_fnc(cmd)
             except exc.TransportError as err:
+                if self._cmd is not cmd or not isinstance(
+                    self._state, WantEcho | WantRply
+                ):
+                    return  # cmd is no longer in flight (e.g. connection was lost)
                 self.set_state(IsInIdle, exception=err)
 
         # TODO: check what happens when exception here - why does it hang?
